@@ -71,6 +71,10 @@ def variant(sc, kind, r):
     if kind == "drop":
         keep = [row for row in v["rows"] if row["step"] == 0 and row["key"] == v["rows"][0]["key"] or r.rand() < 0.6]
         v["rows"] = keep or v["rows"][:1]
+    elif kind == "drop_first":
+        later = [row for row in v["rows"] if row["step"] > 0]
+        if any(row["step"] < v["nsteps"] for row in later):     # something must still be released inside the window
+            v["rows"] = later
     elif kind == "permute":
         rows = v["rows"]
         by_step = {}
@@ -125,7 +129,7 @@ def run(ctx: Ctx):
     use_repo()
     r = np.random.RandomState(ctx.seed + 41)
     nbase = 150 if ctx.thorough else 24
-    kinds = ["drop", "permute", "add", "spare", "shift", "repeat"]
+    kinds = ["drop", "drop_first", "permute", "add", "spare", "shift", "repeat"]
     jobs, meta = [], []
     for b in range(nbase):
         base = make_base(ctx.seed * 100000 + 7000 + b)
